@@ -23,6 +23,7 @@ struct k_entry	k_ep[NK];
 int		k_eintr_budget;
 int		k_ctl_calls;
 int		k_ctl_bad;		/* protocol violations seen (EEXIST / ENOENT / unknown fd) */
+int		k_ctl_refuse;		/* non-zero: the kernel refuses every control call with this errno (ENOSPC, ENOMEM, EPERM ...) */
 
 static int k_slot(int fd)
 {
@@ -44,6 +45,10 @@ int STUB(epoll_ctl)(int epfd, int op, int fd, struct epoll_event *ev)
 	if (k_eintr_budget > 0) {
 		k_eintr_budget--;
 		verif_errno = EINTR;
+		return -1;
+	}
+	if (k_ctl_refuse) {
+		verif_errno = k_ctl_refuse;
 		return -1;
 	}
 	s = k_slot(fd);
